@@ -140,6 +140,16 @@ impl<Octets> UncertainName<Octets> {
     {
         let mut builder =
             NameBuilder::<<Octets as FromBuilder>::Builder>::new();
+        // NameBuilder can’t deal with a single dot, so we need to special
+        // case the root name.
+        let mut chars = chars.into_iter().peekable();
+        if chars.peek() == Some(&'.') {
+            chars.next();
+            if chars.next().is_some() {
+                return Err(FromStrError::empty_label());
+            }
+            return Ok(builder.into_name()?.into());
+        }
         builder.append_chars(chars)?;
         if builder.in_label() || builder.is_empty() {
             Ok(builder.finish().into())
@@ -422,7 +432,7 @@ impl<Octets: AsRef<[u8]>> fmt::Display for UncertainName<Octets> {
     fn fmt(&self, f: &mut fmt::Formatter<'_>) -> fmt::Result {
         match *self {
             UncertainName::Absolute(ref name) => {
-                write!(f, "{}.", name)
+                write!(f, "{}", name.fmt_with_dot())
             }
             UncertainName::Relative(ref name) => name.fmt(f),
         }
